@@ -6,7 +6,7 @@
 (* (Daemon.GraceSchedule) implies for what a client can observe.           *)
 (*                                                                         *)
 (* An outcome is published when a poll completes; a poll completes at most *)
-(* W = 1 s (sleep) + 3 s (query timeouts) + 0.5 s after the previous one,  *)
+(* W = 1 s (sleep) + 3 s (query timeouts) + 2 s (loaded machine) later,    *)
 (* so a status chosen at outcome time may be OBSERVED for up to W longer   *)
 (* (assumption A5: this window is the only tolerance, stated here):        *)
 (*   Synchronized observed at t  =>  a synchronised answer within W + 1 s  *)
@@ -19,7 +19,7 @@
 (***************************************************************************)
 EXTENDS Integers, Sequences, TLC, Json, IOUtils
 
-W == 4500
+W == 6000
 GRACE == 5000
 
 LastBefore(answers, t, onlySync) ==
